@@ -93,7 +93,7 @@ void NiSkinPartition::Sync(NiStreamReversible& stream) {
 
 		if (dataSize > 0) {
 			if (stream.GetMode() == NiStreamReversible::Mode::Reading)
-				numVertices = dataSize / vertexSize;
+				numVertices = vertexSize > 0 ? dataSize / vertexSize : 0;
 
 			vertData.resize(numVertices);
 
